@@ -188,20 +188,32 @@ Definition B0 : list bnode :=
    mkBnode [95; 98; 46]%N (mkWorld [empty_cache] [mkBrowser (Some [95; 98; 46]%N) 0 [] [] []] 0)].
 
 Example symmetric_nonvacuous :
-  exists P bs, netS P bs /\ h_reg (cp_host (o_comp (P 0%nat))) = true /\ h_reg (cp_host (o_comp (P 1%nat))) = true
-    /\ map bn_type bs = map bn_type B0 /\ forall j, o_type (P j) = o_type (P0 j).
+  exists P bs, netS P bs /\ pv_confirmed (cp_prov (o_comp (P 0%nat))) = true /\ h_reg (cp_host (o_comp (P 1%nat))) = true
+    /\ length (o_link (P 0%nat)) = 3%nat /\ map bn_type bs = map bn_type B0 /\ forall j, o_type (P j) = o_type (P0 j).
 Proof.
+  (* five steps only: the state terms nest (each step mentions the previous family five times), so the cost of checking
+     this example grows about sixfold per step *)
   eexists. eexists. split.
-  - eapply (nS_act _ _ 1 2000 2000 (EvTimer T_REG)).
-    + eapply (nS_act _ _ 0 2000 2000 (EvTimer T_REG)).
-      * apply (nS_init P0 B0).
-        -- intros [|[|j]]; eexists; eexists; split; reflexivity.
-        -- repeat constructor.
+  - eapply (nS_act _ _ 0 4000 4000 (EvTimer T_PROBER)).
+    + eapply (nS_act _ _ 0 2000 2000 (EvApi (PUpdate (mkService (Some [95; 116; 46]%N) (Some [97]%N) None 80 [])))).
+      * eapply (nS_act _ _ 0 2000 2000 (EvApi PNewProv)).
+        -- eapply (nS_act _ _ 1 2000 2000 (EvTimer T_REG)).
+           ++ eapply (nS_act _ _ 0 2000 2000 (EvTimer T_REG)).
+              ** apply (nS_init P0 B0).
+                 --- intros [|[|j]]; eexists; eexists; split; reflexivity.
+                 --- repeat constructor.
+              ** exact I.
+              ** exact I.
+           ++ exact I.
+           ++ exact I.
+        -- vm_compute. reflexivity.
+        -- exact I.
       * exact I.
-      * exact I.
+      * reflexivity.
     + exact I.
     + exact I.
   - split; [vm_compute; reflexivity|]. split; [vm_compute; reflexivity|]. split; [vm_compute; reflexivity|].
+    split; [vm_compute; reflexivity|].
     intros [|[|j]]; reflexivity.
 Qed.
 
